@@ -429,6 +429,8 @@ var worldHeredoc = &world{
 		flatDoc("flat-remarks", "a = b\n", "// r\n", "c = d # trailing comment"),
 		{name: "trailing-elided", valid: true, text: "x = y # c1\n# c2\n  # c3"},
 		{name: "empty", valid: true, text: ""},
+		{name: "bad-escape-early", valid: false, text: "x = \"bad \\q escape\";\ny = z\n"},
+		{name: "bad-escape-late", valid: false, text: "a = b\n# c\nlonger = name;\n  y = \"bad \\q escape\"\n"},
 		{name: "unterminated", valid: false, text: "<<{D0} never closed"},
 		{name: "stray-eq", valid: false, text: "x = = y"},
 	},
@@ -530,6 +532,8 @@ var worldBasic = &world{
 			return "10 PRINT " + strings.Repeat("( ", d) + "1" + strings.Repeat(" )", d) + "\n"
 		}},
 		{name: "empty", valid: true, text: ""},
+		{name: "bad-escape-early", valid: false, text: "10 PRINT \"bad \\q escape\"\n"},
+		{name: "bad-escape-late", valid: false, text: "10 LET A = 1\n20 GOTO 10\n30   PRINT   \"bad \\q escape\"\n"},
 		{name: "no-eol", valid: false, text: "10 PRINT 1"},
 		{name: "bad-goto", valid: false, text: "10 GOTO X\n"},
 	},
